@@ -10,9 +10,10 @@ import (
 )
 
 // apath is an access path: the memory location an address value designates.
-//   root  — a pointer Parameter / Alloc / Global (the object it points to), a slice value (its backing
-//           array) or any other pointer value (opaque root)
-//   steps — field selections ".3" and element selections "[c5]" / "[v:t7]"
+//
+//	root  — a pointer Parameter / Alloc / Global (the object it points to), a slice value (its backing
+//	        array) or any other pointer value (opaque root)
+//	steps — field selections ".3" and element selections "[c5]" / "[v:t7]"
 type apath struct {
 	root  ssa.Value
 	steps []step
@@ -22,8 +23,8 @@ type apath struct {
 
 // step: ".f" of struct type st (field index f) or an element selection.
 type step struct {
-	key   string       // ".3", "[c5]", "[v:t7]"
-	st    types.Type   // struct type for field steps
+	key   string     // ".3", "[c5]", "[v:t7]"
+	st    types.Type // struct type for field steps
 	field int
 }
 
@@ -176,6 +177,10 @@ func (a *FuncAn) valName(v ssa.Value) string {
 		}
 	case *ssa.Extract:
 		return fmt.Sprintf("%s#%d", a.valName(x.Tuple), x.Index)
+	case *ssa.TypeAssert:
+		return a.valName(x.X) + ".(" + types.TypeString(x.AssertedType, func(*types.Package) string { return "" }) + ")"
+	case *ssa.Lookup:
+		return a.valName(x.X) + "[" + a.valName(x.Index) + "]"
 	case *ssa.Convert:
 		return a.valName(x.X)
 	case *ssa.ChangeType:
